@@ -333,7 +333,7 @@ theorem renameState_wf (hwf : AdjWF a) (h1 : bmGet a.list s = some e) (h2 : bmGe
     · simp only [hxn, if_true, Option.map_some, Option.some.injEq] at hnb'
       exact ⟨s, e, h1, hnb'.symm, Or.inl ⟨hxn, rfl⟩⟩
     · by_cases hxs : x = s
-      · simp [hxn, hxs, hsn] at hnb'
+      · simp [hxs, hsn] at hnb'
       · simp only [hxn, hxs, if_false] at hnb'
         cases hg : bmGet a.list x with
         | none => simp [hg] at hnb'
@@ -350,7 +350,7 @@ theorem renameState_wf (hwf : AdjWF a) (h1 : bmGet a.list s = some e) (h2 : bmGe
     by_cases hxn : x = new
     · simp [hxn]
     · by_cases hxs : x = s
-      · simp [hxn, hxs, hsn]
+      · simp [hxs, hsn]
       · simp only [hxn, hxs, if_false, Option.isSome_map]
         exact hwf.keys x
   · intro x nb' hnb'
